@@ -153,7 +153,14 @@ def run(tier):
             regs = regions_for(R, "%s/%s" % (ex.prop, fi.qualname), len(c.ensures))
             ex.verify(c, regions=regs)
         ex.prop = PID
-        lockstep(ex, src, reg)
+        try:
+            lockstep(ex, src, reg)
+        except Unsupported:
+            raise
+        except Exception as e:
+            # the lock-step harness starts one loop iteration of both solvers from a common symbolic state built from the loop-carried
+            # variables of the current source; a body it cannot start from that state (e.g. a new loop-carried local) is undecided
+            reg.undecided("C14/lockstep/harness-does-not-fit-the-current-loop-body", "unsupported", "lockstep", "%s: %s" % (type(e).__name__, e))
     except Unsupported as e:
         reg.undecided("C14/executor/unsupported", "unsupported", "executor", str(e))
 
